@@ -80,22 +80,31 @@ def tvarsWithin (ps : List Ty) : Ty → Bool
       tvarsWithinL ps args && closedCon con && decide ((conParams con).length ≤ args.length)
   | nothing => true
   | ext _ => true
+termination_by structural t => t
 def tvarsWithinL (ps : List Ty) : List Ty → Bool
   | [] => true
   | x :: xs => tvarsWithin ps x && tvarsWithinL ps xs
+termination_by structural t => t
 def tvarsWithinO (ps : List Ty) : Option Ty → Bool
   | none => true
   | some x => tvarsWithin ps x
+termination_by structural t => t
 /-- a class declaration whose supertypes only mention the class's own type parameters
     (and so on up the hierarchy) -/
 def closedCon : Ty → Bool
   | tcon _ _ cps css => supsWithin cps css
   | _ => true
+termination_by structural t => t
 def supsWithin (cps : List Ty) : List Ty → Bool
   | [] => true
   | param nm con args ss :: rest => tvarsWithin cps (param nm con args ss) && supsWithin cps rest
   | t :: rest => !mentionsTV t && supsWithin cps rest
+termination_by structural t => t
 end
+
+/-- `t.t_constructor` / `t.type_args` of an instantiation -/
+def conOf : Ty → Ty | param _ c _ _ => c | t => t
+def argsOf : Ty → List Ty | param _ _ as _ => as | _ => []
 
 /-- the map binds every type variable that is `==` to a member of `ps` -/
 def TMap.covers (σ : TMap) (ps : List Ty) : Prop :=
@@ -114,12 +123,15 @@ def strip : Ty → Ty
   | wild v b => wild v (stripO b)
   | param nm con args ss => param nm (stripCon con) (stripL args) (stripL ss)
   | t => t
+termination_by structural t => t
 def stripL : List Ty → List Ty
   | [] => []
   | x :: xs => strip x :: stripL xs
+termination_by structural t => t
 def stripO : Option Ty → Option Ty
   | none => none
   | some x => some (strip x)
+termination_by structural t => t
 end
 
 mutual
@@ -132,12 +144,15 @@ def wf : Ty → Bool
   | param _ con args ss =>
       wfL ss && wfL args && (match con with | tcon _ _ ps _ => wfL ps | _ => false)
   | _ => true
+termination_by structural t => t
 def wfL : List Ty → Bool
   | [] => true
   | x :: xs => wf x && wfL xs
+termination_by structural t => t
 def wfO : Option Ty → Bool
   | none => true
   | some x => wf x
+termination_by structural t => t
 end
 
 mutual
@@ -151,12 +166,15 @@ def Consistent : Ty → Prop
       nm = conName con ∧ ConsistentL args ∧
       stripL (performSubstL (conSups con) (TMap.mk (conParams con) args)) = stripL ss
   | _ => True
+termination_by structural t => t
 def ConsistentL : List Ty → Prop
   | [] => True
   | x :: xs => Consistent x ∧ ConsistentL xs
+termination_by structural t => t
 def ConsistentO : Option Ty → Prop
   | none => True
   | some x => Consistent x
+termination_by structural t => t
 end
 
 end Ty
